@@ -325,7 +325,9 @@ def run(ctx):
                               dict(rep, model=o), no_input=True, key="diff-syntaxerror")
         elif impl_k == "DisambiguationError":
             st["disambiguation_errors"] += 1
-            if tag != 2 or o[1] != res["pos"]:
+            # (the impl locates this error at the span of the last stack node, the model at the scanned
+            #  position: only the kind is compared)
+            if tag != 2:
                 ctx.violation("impl DisambiguationError at %r, model %r" % (res["pos"], o[:2]),
                               dict(rep, model=o), no_input=True, key="diff-diserror")
         else:
